@@ -6,7 +6,7 @@ ID = "C07"
 QUICK_N = 3000
 THOROUGH_N = 50000
 SHARD = 250
-RULE = ("85% exchanges through a real HttpLayer (regular mode, HTTP/1.1, one POST): body_size_limit / stream_large_bodies "
+RULE = ("10% operation sequences on a real BufferedH2Connection (1-3 streams, stream window 0-30, connection window 0-50 or default, sends of 0-40 bytes, window updates of 1-200, then re-opened in small steps until drained), 6% bodies relayed by a real HttpLayer over an HTTP/2 leg (h2 client or h2 upstream, INITIAL_WINDOW_SIZE 0-16, updates of 1-9, stream callables); of the rest: 85% exchanges through a real HttpLayer (regular mode, HTTP/1.1, one POST): body_size_limit / stream_large_bodies "
         "from a dictionary of size strings (unset, empty, small ints, signs, underscores, spaces, k suffix, invalid), "
         "store_streamed_bodies, request and response bodies whose total sizes sit on and around both thresholds "
         "(t-1, t, t+1, 2t+1, 0, 1, random <= 40) cut into random chunkings (whole, 1-byte, random), framing "
@@ -23,7 +23,9 @@ TRUSTED = ["Coq 8.16.1 kernel (coqc), vm_compute for case evaluation",
            "h11 readers deliver one Data event per harness segment (segments are chunk-aligned); tied by correspondence "
            "through the per-step buffer lengths and the chunk boundaries of streamed output",
            "Python int() modelled for ASCII text only (Model.HttpBody.py_int)",
-           "Model/Http1Msg.v emit_chunk, Model/Rfc9112.v reference chunked decoder (C01)"]
+           "Model/Http1Msg.v emit_chunk, Model/Rfc9112.v reference chunked decoder (C01)",
+           "hyper-h2 reduced to: super().send_data writes one DATA frame and lowers stream and connection window by its "
+           "length; local_flow_control_window = min of both (Model/H2SendBuf.v), tied by correspondence"]
 ASSUMPTIONS = ["hooks and GetHttpConnection complete before the next event reaches the stream (no events queued while paused)",
                "HTTP/1 on both sides; HTTP/2 flow-control buffering (BufferedH2Connection) is outside the bound",
                "addons only assign message.stream in requestheaders/responseheaders; no kill, no replaced response, no trailers"]
